@@ -48,7 +48,7 @@ func statSources() map[string][]statSource {
 		return func(c *Ctx, v ssa.Value) bool { return isFieldLoad(v, owner) }
 	}
 	return map[string][]statSource{
-		"Path":     {{what: "the relative path parameter", pred: func(c *Ctx, v ssa.Value) bool { p, ok := v.(*ssa.Parameter); return ok && p.Name() == "relpath" }}},
+		"Path":     {{what: "the relative path parameter", pred: func(c *Ctx, v ssa.Value) bool { p, ok := v.(*ssa.Parameter); return ok && c.P.ParamName(p) == "relpath" }}},
 		"Mode":     {{what: "fi.Mode()", pred: call("(io/fs.FileInfo).Mode")}},
 		"ModTime":  {{what: "fi.ModTime().UnixNano()", pred: call("(time.Time).UnixNano")}, {what: "fi.ModTime()", pred: call("(io/fs.FileInfo).ModTime")}},
 		"Size":     {{what: "fi.Size()", pred: call("(io/fs.FileInfo).Size")}},
